@@ -53,8 +53,10 @@ type varState struct {
 }
 
 type hbState struct {
-	vars  map[interface{}]*varState
-	races map[string]bool
+	vars     map[interface{}]*varState
+	races    map[string]bool
+	firstMsg string
+	firstSig string
 }
 
 func newHB() *hbState {
@@ -161,9 +163,14 @@ func Access(p interface{}, write bool, name string) {
 		}
 		h.races[key] = true
 		s.counters["hb_races"]++
-		s.failNow(ClassRace, fmt.Sprintf("unordered %s on package-level variable %s: task %d at %s vs task %d (%s) at %s",
-			kind, name, a.task, SiteName(a.site), t.ID, t.Name, SiteName(me.site)),
-			"hb-race:"+name)
+		if h.firstMsg != "" {
+			return
+		}
+		// recorded, reported when the run ends without a behavioural violation
+		// (so that the consequence of the race, if any, is seen by the oracles)
+		h.firstSig = "hb-race:" + name
+		h.firstMsg = fmt.Sprintf("unordered %s on package-level variable %s: task %d at %s vs task %d (%s) at %s",
+			kind, name, a.task, SiteName(a.site), t.ID, t.Name, SiteName(me.site))
 	}
 	if vs.hasW && !ordered(vs.write) {
 		if write {
